@@ -243,6 +243,57 @@ struct FaultSweep : GridBase {
     return pts;
   }
   static bool uses_grow(const Snap &before, uintmax_t result) { return result > before.cap; }
+
+  // Real allocation failure of the stock allocators (malloc / realloc returning null): only reachable with a 64-bit size_type and an impossible capacity.
+  // reserve / resize / append beyond what the process can get must throw (bad_alloc or length_error) and leave the vector exactly as it was.
+  void run_huge(long idx) {
+    begin_history(0, idx, 0xC09);
+    if (sizeof(SizeT) < 8 || I::kFixed || !std::is_same<typename I::alloc, amc::allocator<E> >::value) { end_history_ok(); return; }
+    const uintmax_t huge = (static_cast<uintmax_t>(1) << 59) / sizeof(E);
+    uintmax_t sizes[] = {0, 2, 7};
+    for (uintmax_t size : sizes)
+      for (int spare = 0; spare < 3 && !g_cut; ++spare)
+        for (int form = 0; form < 3 && !g_cut; ++form) {
+          Box<Vec> b;
+          uintmax_t want_cap = spare == 0 ? 0 : spare == 1 ? size : size + 9;
+          if (spare && want_cap == 0) continue;
+          if (!build(b, size, want_cap)) { destroy(b); cell_end<E>("C09"); continue; }
+          Vec *vp = b.obj;
+          Snap before = snap(*vp);
+          set_op(form == 0 ? "reserve(huge)" : form == 1 ? "resize(huge)" : "append(huge)", state_class<Vec>(before), "allocation-failure,strong", fmt("size=%ju cap=%ju request=%ju elements", size, before.cap, huge));
+          ++n_scen;
+          const long live0 = g_live_lib;
+          if (form == 0) window([&] { vp->reserve(static_cast<SizeT>(huge)); });
+          else if (form == 1) window([&] { vp->resize(static_cast<SizeT>(huge)); });
+          else window([&] { vp->append(static_cast<SizeT>(huge)); });
+          if (!threw) violation("C09", "fault.huge_request_succeeded", "a request for 2^59 bytes did not fail");
+          else if (threw_what.find("bad_alloc") == std::string::npos && threw_what.find("length_error") == std::string::npos) violation("C09", "fault.unexpected_exception", fmt("threw %s", threw_what.c_str()));
+          else {
+            ++n_faulted;
+            ++n_strong;
+            Snap after = snap(*vp);
+            MonScope mm;
+            if (after.sane && (after.size != before.size || !same_vals(after.vals, before.vals) || after.cap != before.cap || after.data != before.data))
+              violation("C09", "fault.strong_guarantee_broken", fmt("after the allocation failure: size %ju->%ju capacity %ju->%ju data %s", before.size, after.size, before.cap, after.cap, after.data == before.data ? "same" : "changed"));
+            if (EI<E>::kTracked && g_live_lib != live0) violation("C09,C02", "fault.live_vs_visible", "element count changed by a failed allocation");
+          }
+          // still usable: touch every element, grow a little, destroy
+          if (!g_cut) {
+            std::vector<Val> m = b.model;
+            Val y = EI<E>::norm(Val(3, ++paycnt));
+            window([&] { vp->emplace_back(y.key, y.pay); });
+            m.push_back(y);
+            window([&] { vp->shrink_to_fit(); });
+            Snap fin = snap(*vp);
+            MonScope mm;
+            if (threw) violation("C09", "fault.unusable_after", "follow-up threw");
+            else if (fin.sane && !same_vals(fin.vals, m)) violation("C09", "fault.unusable_after", "follow-up result differs");
+          }
+          destroy(b);
+          cell_end<E>("C09,C02");
+        }
+    if (!g_cut) end_history_ok();
+  }
 };
 
 }  // namespace vf
@@ -255,11 +306,12 @@ int main(int argc, char **argv) {
   g_elem_relocatable = EI<Elem>::kRelocatable;
   static FaultSweep<Vec> eng;
   eng.wide = a.has("--wide");
-  long total = F_N;
+  long total = F_N + 1;
   long to = a.to < total ? a.to : total;
   long h = a.from;
   for (; h < to; ++h) {
-    eng.run_op(static_cast<int>(h), h);
+    if (h == F_N) eng.run_huge(h);
+    else eng.run_op(static_cast<int>(h), h);
     if (g_cut) break;
   }
   eng.counters["scenarios"] = eng.n_scen;
